@@ -381,7 +381,8 @@ def run_cfg(ctx, p, cfg):
             r.floor("tagged-sections-default-features", n, 6)
 
     with ctx.rule("K5", "pipelines", cfg) as r:
-        f = p.fn("config::raw::RawConfig::appenders_lossy")
+        # (with Result::map_err/and_then over closures written out as matches: an error wrapped before it is matched is still matched)
+        f = p.fn_results("config::raw::RawConfig::appenders_lossy")
         des = f.calls("config::raw::Deserializers::deserialize")
         r.require(len(des) == 2, "two-deserialize-sites", fn=f, detail="filter and appender deserialisation sites: %d" % len(des))
         nxt = [c.block for c in f.calls(NEXT)]
